@@ -227,7 +227,7 @@ def worker_main(argv):
                 emit({'type': 'violation', 'index': idx, 'seed': seed, 'key': k, 'violation': v_out,
                       'scenario': small, 'minimised_from': {f: len(sc.get(f, [])) for f in ('intents', 'faults')},
                       'hashseed': os.environ.get('PYTHONHASHSEED')})
-            if len(seen_keys) >= 3:
+            if len(seen_keys) >= (1 if a.tier == 'quick' else 3):
                 break
         if indices is None:
             idx += a.lanes
